@@ -1,7 +1,7 @@
 SPECIFICATION Spec
 CONSTANTS
-  Universe <- UnivA
-  MaxFiles = 3
+  Universe <- UnivD
+  MaxFiles = 4
   Names <- AllNames
   Configs <- AllConfigs
   ShadowRule = "asis"
@@ -12,3 +12,4 @@ INVARIANT FindInvertsCrawl
 INVARIANT OrderIndependence
 INVARIANT DirVersusFilesModuloShadow
 INVARIANT DirVersusPackageModuloShadow
+INVARIANT Emit
